@@ -280,13 +280,10 @@ def judge(parser, lopt, mopt, data, layout_name, fd_mode, acc):
         elif T.diff(T.expected(data, first_wins=True), got) is None:
             d = "map-repeated-key-keeps-first-value"
         return (d, feats, ("C05:" + d, "cleaned value differs from the data the text denotes", repr(got), repr(want)))
-    orders = T.result_key_orders(got, [])
-    wanted = T.key_orders(data)
-    if len(orders) == len(wanted):
-        for o, (first, last) in zip(orders, wanted):
-            if o != first and o != last:
-                return ("map-key-order", feats, ("C05:map-key-order", "map keys are not in source order",
-                                                 o, first))
+    if not r.fd_ambiguous:
+        ko = T.key_order_violation(data, got)
+        if ko is not None:
+            return ("map-key-order", feats, ("C05:map-key-order", "map keys are not in source order", ko[0], ko[1]))
     kind = T._kind(got)
     return ("ok:" + kind + (":fd" if r.fd_used else ""), feats, None)
 
